@@ -14,6 +14,11 @@ restart case: {"id", "jobs": [{"x": int, "deps": [index], "token": bool}], "toke
   collected.  Taps installed by the script at run time (wrappers around `CommandLineJob.aio_run/aio_process` and
   `LocalProcessBuilder.start`) give the rendezvous for two phases and a diagnostic log; no source change.
 
+restart case with "suspend": "adopted" | "at-resubmission", "suspend_for": seconds (phase "running+…"): the job processes that survived the kill
+  are suspended (SIGSTOP) for `suspend_for` seconds and resumed (SIGCONT) — "adopted": while the second run waits on them (after it adopted
+  them); "at-resubmission": suspended before the second run starts, resumed once it has submitted and looked at every job.  What job control,
+  a cluster suspend/resume or a debugger attaching do to a job; a suspended process is alive and goes on.
+
 restart case with "kills": 2 : {"id", "jobs", "token_total", "signals": [s1, s2], "phase2": "running" | "between"}
   killed while the first root job runs, run again (adopts), killed again at phase2, run a third time: must finish.
 
@@ -341,6 +346,14 @@ def pid_alive(pid):
         return True
 
 
+def proc_state(pid):
+    """state letter of /proc/<pid>/stat (R S D T t Z …), "-" when the process is gone"""
+    try:
+        return Path(f"/proc/{pid}/stat").read_text().rsplit(")", 1)[1].split()[0]
+    except Exception:
+        return "-"
+
+
 def child_env(libroot):
     env = dict(os.environ)
     pp = [str(libroot)] + ([env["PYTHONPATH"]] if env.get("PYTHONPATH") else [])
@@ -366,6 +379,7 @@ def prepare(root: Path, case):
 
 
 def run_restart_case(case, timeout=60):
+    timeout = timeout * load_factor()
     root = Path(tempfile.mkdtemp(prefix="xv-c11-"))
     obs = {"id": case["id"], "error": None}
     procs = []
@@ -379,7 +393,8 @@ def run_restart_case(case, timeout=60):
         p1 = subprocess.Popen(cmd + ["1"], env=env, stdout=subprocess.DEVNULL, stderr=open(root / "err1", "w"), cwd=str(root))
         procs.append(p1)
         OWN.add(p1.pid)
-        phase = case["phase"]
+        phase = case["phase"].split("+")[0]   # "running+suspend-adopted" / "running+suspended-at-resubmission": killed in phase "running"
+        suspend = case.get("suspend")          # None | "adopted" | "at-resubmission"
         xs = [j["x"] for j in case["jobs"]]
         roots = [j["x"] for j in case["jobs"] if not j["deps"]]
 
@@ -490,6 +505,30 @@ def run_restart_case(case, timeout=60):
                     pass
         tokdir0 = ws / "xpmwork" / "tokens" / "xvtok.counter"
         obs["token_files_at_restart"] = len(list(tokdir0.glob("*.token"))) if tokdir0.exists() else 0
+        # ---- suspension of the surviving job processes (the pid the pid file names and the pid that runs the body)
+        def job_pids():
+            pids = {pid for pid in open_bodies.values()}
+            for pf in ws.glob("jobs/*/*/*.pid"):
+                try:
+                    pids.add(int(json.loads(pf.read_text())["pid"]))
+                except Exception:
+                    pass
+            return sorted(p for p in pids if pid_alive(p))
+
+        def signal_jobs(sg):
+            done = []
+            for p in job_pids():
+                try:
+                    os.kill(p, sg)
+                    done.append(p)
+                except Exception:
+                    pass
+            return done
+
+        if suspend == "at-resubmission":
+            obs["suspended"] = signal_jobs(signal.SIGSTOP)
+            time.sleep(0.1)
+            obs["status_when_suspended"] = sorted({proc_state(p) for p in obs["suspended"]})
         # ---- second run of the same experiment
         p2 = subprocess.Popen(cmd + ["2"], env=env, stdout=subprocess.DEVNULL, stderr=open(root / "err2", "w"), cwd=str(root))
         procs.append(p2)
@@ -510,6 +549,17 @@ def run_restart_case(case, timeout=60):
         expect = [x for x, pid in open_bodies.items() if pid_alive(pid)]
         wait_for(lambda: all(any(t[0] == "2" and t[2] in ("adopted", "aio_run") and t[3] == x for t in taps()) for x in expect), 8)
         time.sleep(0.3)
+        if suspend == "adopted":
+            obs["suspended"] = signal_jobs(signal.SIGSTOP)
+            time.sleep(0.1)
+            obs["status_when_suspended"] = sorted({proc_state(p) for p in obs["suspended"]})
+            time.sleep(case.get("suspend_for", 0.5))
+            obs["resumed"] = signal_jobs(signal.SIGCONT)
+            time.sleep(0.3)
+        elif suspend == "at-resubmission":
+            time.sleep(case.get("suspend_for", 0.5))
+            obs["resumed"] = signal_jobs(signal.SIGCONT)
+            time.sleep(0.3)
         if phase in ("mid-launch", "mid-pidwrite") and not case.get("finish_before_restart"):
             # the orphaned process is inside its body and cannot be adopted (no usable pid file): give the new scheduler
             # the time to relaunch the job; the relaunch has to wait behind the run lock of the running body
@@ -558,10 +608,20 @@ def run_restart_case(case, timeout=60):
     return obs
 
 
+def load_factor():
+    """1 … 4: on an overloaded machine (several checks at once) everything — the start of an experiment, its exit — is slower;
+    time-outs that decide "rendezvous not reached" / "hangs" are stretched accordingly (a slow machine is not a hang)"""
+    try:
+        return min(4.0, max(1.0, os.getloadavg()[0] / (os.cpu_count() or 1) / 2))
+    except OSError:
+        return 1.0
+
+
 def wait_or_hang(p, log, t_quiet, t_max):
     """exit status of `p`, or "timeout" once nothing has happened for `t_quiet` seconds (no job process of the case
     alive, task log unchanged) — a slow machine is not a hang"""
     import psutil
+    t_quiet = t_quiet * load_factor()
     t0 = time.time()
     last_change = time.time()
     size = -1
